@@ -202,6 +202,18 @@ def check_tree(label, name, est, s, X, y, Kmat, qseed, subsets):
     ref = KR.J(pred, Kmat)
     if abs(sc - ref) > 1e-9 * max(1.0, abs(ref), n * float(np.max(np.abs(Kmat)))):
         raise Violation(f"{label} [{name}]: score {sc!r} != kernel-KMeans objective of the predicted labels {ref!r}")
+    if y is not None:
+        # the objective is a sum over ordered pairs of the matrix that is handed in: scoring with an affinity that is not
+        # symmetric (a k-nearest-neighbour or row-normalised affinity) must follow the same definition
+        Ka = np.ascontiguousarray(np.asarray(y) + 0.25 * float(np.max(np.abs(Kmat)) + 1.0) * np.triu(rs.rand(n, n), 1))
+        try:
+            sc_a = est.score(X, Ka)
+        except Exception as e:
+            raise Violation(f"{label} [{name}]: score with a non-symmetric affinity raised {type(e).__name__}: {e}")
+        ref_a = KR.J(pred, Ka)
+        if not np.isfinite(sc_a) or abs(sc_a - ref_a) > 1e-9 * max(1.0, abs(ref_a), n * float(np.max(np.abs(Ka)))):
+            raise Violation(f"{label} [{name}]: score with a non-symmetric affinity is {sc_a!r}, the objective "
+                            f"sum_k sum_(i,j in C_k) K[i,j] / |C_k| of the predicted labels is {ref_a!r}")
     # held-out / partial data: score must be the objective of the predicted labels there too (cluster ids may be skipped)
     for trial in range(3):
         if len(uniq) >= 2 and trial == 0:
